@@ -1,20 +1,31 @@
 (* C06 property theorems: statements only, each closed by `exact`, Print Assumptions beneath.
 
-   Model of the matcher: Match/Matcher.v (`run`, `run_commute`, parameterised by `flags` = which of the three
+   Model of the matcher: Match/Matcher.v (`run`, `run_commute`, parameterised by `flags` = which of the five
    defects found in the pinned source are repaired; `flags_as_pinned` is the pinned behaviour, the
    correspondence check determines on every run which setting the implementation exhibits).
    Declarative meaning: Match/Spec.v (`instanceb g p cand sigma`, `removable`).
 
-   Not proved (kept visible):
-   * completeness for patterns with OrValue: false for the algorithm as designed -- an OR alternative that
-     matches locally is committed (documented in docs/tutorial/rewriter/node_value_checkers.md); the harness counts
-     those cases separately;
-   * with several output nodes completeness is proved up to "no earlier candidate tuple makes the matcher raise";
+   Committed-choice meaning of patterns with OrValue: Match/Committed.v (`crun`, `cmatch`: one flat environment,
+   ordered choice), proved equal to `run` for every pattern and graph (C06_match_iff_committed).
+
+   Kept visible:
+   * completeness with respect to the *unordered* meaning `instanceb` is false for patterns with OrValue
+     (C06_match_complete_full, C06_or_committed_choice_refuted): an OR alternative that matches locally is committed
+     (documented in docs/tutorial/rewriter/node_value_checkers.md).  The exact statement for those patterns is
+     C06_match_iff_committed + the laws C06_or_first_alternative / C06_or_fails_iff;
+   * the fifth repair flag `attr_fix`: AttrConstantPattern.matches as read raises TypeError for a scalar pattern against a
+     list attribute of the same name (fixed in the repository, bbeff32); without it the matcher raises on the node and, with
+     several output nodes, on any candidate tuple (C06_attr_scalar_vs_list_refuted); with it completeness for several
+     output nodes needs no side condition on the attributes;
    * that the variants of commute() mean the pattern with swapped operands is by construction of `variant`
-     (Match/CommuteProofs.v); a separate declarative characterisation of `variant` is not given. *)
-From Coq Require Import List ZArith String Bool.
+     (Match/CommuteProofs.v); a separate declarative characterisation of `variant` is not given;
+   * constants: `isclose` over the rationals (the float32 value read from the tensor, the python float of the
+     pattern); rounding inside math.isclose is not modelled (the generators stay 3% away from the bound). *)
+From Coq Require Import List ZArith String Bool QArith Qabs.
+Close Scope Q_scope.
 Require Import OV.Match.Pattern OV.Match.Matcher OV.Match.Spec OV.Match.SoundProofs OV.Match.CompleteProofs
-  OV.Match.CommuteProofs OV.Match.Witness OV.Match.WitnessProofs.
+  OV.Match.CommuteProofs OV.Match.Witness OV.Match.WitnessProofs
+  OV.Match.Committed OV.Match.CommittedProofs OV.Match.MultiProofs OV.Match.FeatureProofs OV.Match.ExtraWitnessProofs.
 Import ListNotations.
 
 (* soundness, all pattern features (OR alternatives, several output nodes, optional inputs, attributes, ...):
@@ -44,7 +55,8 @@ Theorem C06_match_complete_orfree_partial : forall fl p g root r s,
   instanceb g p [root] s = true ->
   exists m, run fl p g root false = Ok m /\
     (forall q n, assoc Nat.eqb q (m_nb m) = Some n -> node_is s q n = true) /\
-    (forall x b, assoc String.eqb x (m_b m) = Some b -> var_is s x b = true \/ (b = BNone /\ In x (gp_inputs p))).
+    (forall x b, assoc String.eqb x (m_b m) = Some b -> var_is s x b = true \/ (b = BNone /\ In x (gp_inputs p))) /\
+    (forall k v, assoc vkey_eqb k (m_vb m) = Some v -> key_is s k v = true).
 Proof. exact run_complete_orfree. Qed.
 Print Assumptions C06_match_complete_orfree_partial.
 
@@ -60,26 +72,118 @@ Theorem C06_or_committed_choice_refuted :
 Proof. exact or_committed_choice_witness. Qed.
 Print Assumptions C06_or_committed_choice_refuted.
 
-(* several output nodes: when some candidate tuple (first component = the root) carries an instance, a match is
-   reported -- for the first such tuple in candidate order -- provided no earlier tuple makes the matcher raise *)
-Theorem C06_match_complete_orfree_multi_partial : forall fl g p s,
-  repaired fl = true -> or_free p = true -> topo p = true ->
-  forall root cand,
+(* ... and the exact statement for ALL patterns, OrValue and several output nodes included: the matcher (stack of
+   partial matches, push / abandon / merge) reports exactly the committed-choice meaning of Match/Committed.v -- same
+   verdict (match / no match / raises), same bindings, node map, node order and outputs.  Soundness and completeness
+   with respect to that meaning in one equation. *)
+Theorem C06_match_iff_committed : forall fl g p, repaired fl = true ->
+  forall root rm, run fl p g root rm = crun (fresh_iter fl) (attr_fix fl) p g root rm.
+Proof. exact run_eq_committed. Qed.
+Print Assumptions C06_match_iff_committed.
+
+Theorem C06_match_reported_iff_committed_instance : forall fl p g root rm m,
+  repaired fl = true -> fresh_iter fl = true -> attr_fix fl = true ->
+  (run fl p g root rm = Ok m <-> cmatch p g root rm m).
+Proof. exact run_reports_iff_committed. Qed.
+Print Assumptions C06_match_reported_iff_committed_instance.
+
+(* the laws of the committed meaning.  An OrValue matches iff some alternative matches from the environment at the
+   OrValue and all EARLIER alternatives fail from that same environment (first alternative whose sub-pattern
+   matches); it fails iff it cannot stand for the value or every alternative fails; and a failure after an input
+   has matched is the failure of the node (no return into later alternatives). *)
+Theorem C06_or_first_alternative : forall g tbl rec k name tagv alts v e e',
+  cvalue g tbl rec (POr k name tagv alts) v e = Ok e' <->
+  boundary_blocks g (POr k name tagv alts) v = false /\
+  exists e1 pre tag alt post e2,
+    e_bind_value name (KObj k) v e = Some e1 /\
+    alts = (pre ++ (tag, alt) :: post)%list /\
+    (forall ta, In ta pre -> cvalue g tbl rec (snd ta) v e1 = Fail) /\
+    cvalue g tbl rec alt v e1 = Ok e2 /\
+    e_bind_tag tagv tag e2 = Ok e'.
+Proof. exact cvalue_or_first. Qed.
+Print Assumptions C06_or_first_alternative.
+
+Theorem C06_or_fails_iff : forall g tbl rec k name tagv alts v e,
+  cvalue g tbl rec (POr k name tagv alts) v e = Fail <->
+  boundary_blocks g (POr k name tagv alts) v = true \/
+  e_bind_value name (KObj k) v e = None \/
+  exists e1, e_bind_value name (KObj k) v e = Some e1 /\
+             forall ta, In ta alts -> cvalue g tbl rec (snd ta) v e1 = Fail.
+Proof. exact cvalue_or_fail. Qed.
+Print Assumptions C06_or_fails_iff.
+
+Theorem C06_or_no_backtracking_after_commit : forall g tbl rec pv pins a ins e e1,
+  cvalue g tbl rec pv a e = Ok e1 -> cinputs g tbl rec pins ins e1 = Fail ->
+  cinputs g tbl rec (Some pv :: pins) (a :: ins) e = Fail.
+Proof. exact cinputs_committed. Qed.
+Print Assumptions C06_or_no_backtracking_after_commit.
+
+(* committed meaning vs. unordered meaning: every committed match is an instance; without OrValue they coincide *)
+Theorem C06_committed_is_instance : forall fresh afix p g root rm m,
+  crun fresh afix p g root rm = Ok m ->
+  exists cand, hd_error cand = Some root /\
+    instanceb g p cand (sigma_of m) = true /\
+    m_nodes m = rev (image (sigma_of m)) /\
+    spec_outputs (gp_nodes p) (sigma_of m) (gp_outs p) = Some (m_outs m) /\
+    (rm = true -> removable g (m_nodes m) (m_outs m)).
+Proof. exact committed_is_instance. Qed.
+Print Assumptions C06_committed_is_instance.
+
+Theorem C06_committed_iff_instance_orfree : forall p g root r,
+  or_free p = true -> topo p = true -> output_nodes p = [r] -> outs_reachable p r ->
+  ((exists m, cmatch p g root false m) <-> (exists s, instanceb g p [root] s = true)).
+Proof. exact committed_iff_instance_orfree. Qed.
+Print Assumptions C06_committed_iff_instance_orfree.
+
+Example C06_committed_satisfiable :
+  (exists m, crun true true p_or g_one_relu 2 true = Ok m /\ m_nodes m = [2; 1; 0]) /\
+  (exists m, crun true true p_or g_or_second 3 true = Ok m /\ m_nodes m = [3; 2; 1; 0] /\
+             run flags_fixed p_or g_or_second 3 true = Ok m) /\
+  crun true true p_choice g_choice 2 false = Fail /\ instanceb g_choice p_choice [2] s_choice = true.
+Proof. exact committed_example. Qed.
+
+(* several output nodes (shared interior nodes allowed), OR-free: an instance whose first output node is the given
+   node and whose other output nodes are nodes of the matched graph is matched -- whatever the other candidate
+   tuples are.  (What is returned is the match of the first candidate tuple, in candidate order, that carries an
+   instance: C06_match_sound.) *)
+Theorem C06_match_complete_orfree_multi : forall fl g p s root rest,
+  repaired fl = true -> fresh_iter fl = true -> attr_fix fl = true ->
+  or_free p = true -> topo p = true ->
   outs_reachable_multi p ->
-  In cand (candidates fl p g root) ->
-  instanceb g p cand s = true ->
-  (forall c, In c (candidates fl p g root) -> try_candidate fl g p false c <> Err) ->
+  root < List.length (g_nodes g) ->
+  Forall (fun n => own_node g n = true) rest ->
+  instanceb g p (root :: rest) s = true ->
   exists m, run fl p g root false = Ok m.
-Proof. exact run_complete_orfree_multi_closed. Qed.
-Print Assumptions C06_match_complete_orfree_multi_partial.
+Proof. exact run_complete_orfree_multi_instance. Qed.
+Print Assumptions C06_match_complete_orfree_multi.
+
+(* the two halves: every such instance sits on a candidate tuple; and the matcher never raises on a candidate tuple *)
+Theorem C06_instance_in_candidates : forall fl g p s root rest,
+  fresh_iter fl = true ->
+  instanceb g p (root :: rest) s = true ->
+  Forall (fun n => own_node g n = true) rest ->
+  In (root :: rest) (candidates fl p g root).
+Proof. exact instance_in_candidates. Qed.
+Print Assumptions C06_instance_in_candidates.
+
+Theorem C06_matcher_does_not_raise_orfree : forall fl g p,
+  repaired fl = true -> or_free p = true -> topo p = true ->
+  attr_fix fl = true \/ attrs_typed (gp_nodes p) g = true ->
+  (forall r, In r (output_nodes p) -> r < List.length (gp_nodes p)) ->
+  forall cand, List.length cand = List.length (output_nodes p) ->
+  Forall (fun n => n < List.length (g_nodes g)) cand ->
+  try_candidate fl g p false cand <> Err.
+Proof. exact try_candidate_no_err. Qed.
+Print Assumptions C06_matcher_does_not_raise_orfree.
 
 Example C06_match_complete_multi_satisfiable :
-  or_free p_two_roots = true /\ topo p_two_roots = true /\ outs_reachable_multi p_two_roots /\
-  candidates flags_fixed p_two_roots g_two_roots 0 = [[0; 1]; [0; 2]] /\
+  or_free p_two_roots = true /\ topo p_two_roots = true /\ attr_fix flags_fixed = true /\
+  outs_reachable_multi p_two_roots /\ 0 < List.length (g_nodes g_two_roots) /\
+  Forall (fun n => own_node g_two_roots n = true) [2] /\
   instanceb g_two_roots p_two_roots [0; 2] s_two_roots = true /\
-  (forall c, In c (candidates flags_fixed p_two_roots g_two_roots 0) -> try_candidate flags_fixed g_two_roots p_two_roots false c <> Err) /\
+  In [0; 2] (candidates flags_fixed p_two_roots g_two_roots 0) /\
   exists m, run flags_fixed p_two_roots g_two_roots 0 false = Ok m /\ m_nodes m = [0; 2].
-Proof. exact multi_example. Qed.
+Proof. exact multi_full_example. Qed.
 
 (* hence the instance at a root is unique on what the matcher binds *)
 Theorem C06_instance_unique_orfree : forall fl p g root r s1 s2,
@@ -144,6 +248,21 @@ Proof. exact commute_example. Qed.
 
 (* the pinned behaviour violates soundness in two ways (findings; replayed on the real matcher by the harness:
    corpus/C06/f16_merge.json, corpus/C06/outputs.json) *)
+(* the fifth finding (fixed: bbeff32): as read, a scalar constant attribute pattern against a list-valued attribute raises --
+   on the node itself, and on an earlier candidate tuple of a pattern with several output nodes, whose instance on a later
+   tuple is then not matched (completeness for several output nodes is false for that setting without `attrs_typed`) *)
+Theorem C06_attr_scalar_vs_list_refuted :
+  run flags_attr_as_read p_attr_scalar g_attr_list 0 false = Err /\
+  run flags_fixed p_attr_scalar g_attr_list 0 false = Fail /\
+  or_free p_two_roots_attr = true /\ topo p_two_roots_attr = true /\
+  instanceb g_two_roots_attr p_two_roots_attr [0; 2] s_two_roots_attr = true /\
+  In [0; 2] (candidates flags_attr_as_read p_two_roots_attr g_two_roots_attr 0) /\
+  attrs_typed (gp_nodes p_two_roots_attr) g_two_roots_attr = false /\
+  run flags_attr_as_read p_two_roots_attr g_two_roots_attr 0 false = Err /\
+  exists m, run flags_fixed p_two_roots_attr g_two_roots_attr 0 false = Ok m /\ m_nodes m = [0; 2].
+Proof. exact attr_scalar_vs_list_witness. Qed.
+Print Assumptions C06_attr_scalar_vs_list_refuted.
+
 Theorem C06_merge_loses_bindings_refuted :
   exists m, run flags_as_pinned p_or g_two_relus 3 true = Ok m /\
             m_nodes m = [3; 2; 0; 1] /\
@@ -159,3 +278,102 @@ Theorem C06_output_count_refuted :
             run flags_fixed p_two_outs g_one_out 1 true = Fail.
 Proof. exact output_count_witness. Qed.
 Print Assumptions C06_output_count_refuted.
+
+(* ------------------------------------------------------------------ bindings are exactly the instance's *)
+(* OR-free, one output node: what is returned is an instance (nothing missing) and lies below every instance at that
+   node -- pattern nodes, variables, attribute variables (BAttr), None, unnamed value patterns (nothing extra); the
+   only other entries are the pattern inputs that were not reached, bound to None.  With OrValue / several output
+   nodes the returned bindings are those of the committed instance: C06_match_iff_committed. *)
+Theorem C06_bindings_exact_orfree : forall fl p g root r m,
+  repaired fl = true -> or_free p = true -> topo p = true -> output_nodes p = [r] -> outs_reachable p r ->
+  run fl p g root false = Ok m ->
+  instanceb g p [root] (sigma_of m) = true /\
+  spec_outputs (gp_nodes p) (sigma_of m) (gp_outs p) = Some (m_outs m) /\
+  forall s, instanceb g p [root] s = true ->
+    (forall q n, assoc Nat.eqb q (m_nb m) = Some n -> node_is s q n = true) /\
+    (forall x b, assoc String.eqb x (m_b m) = Some b -> var_is s x b = true \/ (b = BNone /\ In x (gp_inputs p))) /\
+    (forall k v, assoc vkey_eqb k (m_vb m) = Some v -> key_is s k v = true).
+Proof. exact bindings_exact_orfree. Qed.
+Print Assumptions C06_bindings_exact_orfree.
+
+Example C06_bindings_exact_satisfiable :
+  exists m, run flags_fixed p_plain g_plain 2 false = Ok m /\
+    m_b m = [("x"%string, BVal 0)] /\ m_nb m = [(0, 0); (1, 1); (2, 2)] /\
+    instanceb g_plain p_plain [2] s_plain = true.
+Proof. exact bindings_exact_example. Qed.
+
+(* ------------------------------------------------------------------ the documented meaning, feature by feature *)
+(* what the instance conditions say; both directions of the matcher with respect to them are C06_match_sound and the
+   completeness theorems above *)
+Theorem C06_attr_constant_agrees : forall s h name c,
+  attr_local s h (name, APConst c) = true <->
+  exists a, assoc String.eqb name (h_attrs h) = Some a /\ attr_const_matches c a = Some true.
+Proof. exact attr_const_local_iff. Qed.
+Print Assumptions C06_attr_constant_agrees.
+
+Theorem C06_attr_constant_equal : forall c a,
+  attr_const_matches c a = Some true <-> c = a \/ (c = AStr EmptyString /\ a = AInts []).
+Proof. exact attr_const_matches_true. Qed.
+Print Assumptions C06_attr_constant_equal.
+
+Theorem C06_attr_variable_binds : forall s h name x none_ok,
+  attr_local s h (name, APVar (Some x) none_ok) = true <->
+  (exists a, assoc String.eqb name (h_attrs h) = Some a /\ var_is s x (BAttr name a) = true) \/
+  (assoc String.eqb name (h_attrs h) = None /\ none_ok = true /\ var_is s x BNone = true).
+Proof. exact attr_var_local_iff. Qed.
+Print Assumptions C06_attr_variable_binds.
+
+Theorem C06_no_other_attributes : forall np h,
+  no_other_attrs np h = true <->
+  forall name a, In (name, a) (h_attrs h) -> exists ap, assoc String.eqb name (np_attrs np) = Some ap.
+Proof. exact no_other_attrs_iff. Qed.
+Print Assumptions C06_no_other_attributes.
+
+Theorem C06_inputs_positionwise : forall g s pins ins,
+  inputs_local g s pins ins = true <->
+  forall i pp, nth_error pins i = Some pp ->
+    match pp with
+    | None => nth i ins None = None
+    | Some pv => vlocal g s pv (nth i ins None) = true
+    end.
+Proof. exact inputs_local_iff. Qed.
+Print Assumptions C06_inputs_positionwise.
+
+Theorem C06_extra_inputs_only_if_allowed : forall g s p np h, nlocal g s p np h = true ->
+  List.length (h_ins h) <= List.length (np_ins np) \/ np_other_ins np = true.
+Proof. exact input_count_iff. Qed.
+Print Assumptions C06_extra_inputs_only_if_allowed.
+
+Theorem C06_constant_within_tolerance : forall g q rel abs x,
+  const_ok g (CPScalar q rel abs) x = true <->
+  exists y, assoc Nat.eqb x (g_consts g) = Some (CScalar y) /\ isclose y q rel abs = true.
+Proof. exact const_scalar_iff. Qed.
+Print Assumptions C06_constant_within_tolerance.
+
+Theorem C06_isclose_meaning : forall a b rel abs,
+  isclose a b rel abs = true <->
+  (Qabs (a - b) <= rel * qmax (Qabs a) (Qabs b))%Q \/ (Qabs (a - b) <= abs)%Q.
+Proof. exact isclose_iff. Qed.
+Print Assumptions C06_isclose_meaning.
+
+Theorem C06_constant_list : forall g ps rel abs x,
+  const_ok g (CPVec ps rel abs) x = true <->
+  exists ys, assoc Nat.eqb x (g_consts g) = Some (CVec ys) /\ all_close ys ps rel abs = true.
+Proof. exact const_vector_iff. Qed.
+Print Assumptions C06_constant_list.
+
+(* scalar pattern vs 1-element tensor, list pattern vs scalar *)
+Theorem C06_scalar_pattern_not_vector : forall g q rel abs x ys,
+  assoc Nat.eqb x (g_consts g) = Some (CVec ys) -> const_ok g (CPScalar q rel abs) x = false.
+Proof. exact const_scalar_not_vector. Qed.
+Print Assumptions C06_scalar_pattern_not_vector.
+
+Theorem C06_list_pattern_not_scalar : forall g ps rel abs x y,
+  assoc Nat.eqb x (g_consts g) = Some (CScalar y) -> const_ok g (CPVec ps rel abs) x = false.
+Proof. exact const_vector_not_scalar. Qed.
+Print Assumptions C06_list_pattern_not_scalar.
+
+Example C06_features_satisfiable :
+  exists m, run flags_fixed p_feat g_feat 0 true = Ok m /\
+    m_b m = [("hi"%string, BNone); ("x"%string, BVal 0); ("m"%string, BNone)] /\ m_nb m = [(0, 0)] /\ m_outs m = [BVal 2].
+Proof. exact feature_example. Qed.
